@@ -357,6 +357,22 @@ func C02(c *ev.Ctx) {
 	}
 	sort.Strings(gs)
 	lkTried, lkExec := c02Lookalikes(c)
+	// out-of-subset constructs that only show in concurrent programs (go with arguments, TryLock, RWMutex, defer of an
+	// unlock, re-assigned captured variables, ...): rejected, or explored over all interleavings like C03's programs
+	{
+		var bps []goosegen.ConcProgram
+		for _, p := range goosegen.ConcTemplates(uint64(c.Seed)) {
+			if p.Boundary {
+				bps = append(bps, p)
+			}
+		}
+		nb, _, bout, ok := concRun(c, bps, "c02.conc.", "mod-c02c")
+		if ok {
+			c.Set("concurrent_boundary_programs", len(bps))
+			c.Set("concurrent_boundary_programs_executed", nb)
+			c.Set("concurrent_boundary_outcomes", bout)
+		}
+	}
 	c.Set("lookalike_packages_tried", lkTried)
 	c.Set("lookalike_packages_executed", lkExec)
 	c.Set("programs", len(pkgs))
